@@ -144,8 +144,9 @@ def confirm_enum_literals(C, model):
     rust = model.get('normalization') == 'Rust'
     norm = lambda x: x.replace('_', '').lower()
     rp = None
-    for vals in sets:
-        sdl = f"enum E {{ {' '.join(vals)} }}\ntype Query {{ e: E }}\n"
+    for k_, vals in enumerate(sets):
+        # (every other set is preceded by a body-less enum and followed by another enum: the definitions must stay aligned)
+        sdl = ('enum Stub\n' if k_ % 2 else '') + f"enum E {{ {' '.join(vals)} }}\nenum Zz {{ QQ }}\ntype Query {{ e: E z: Zz }}\n"
         rp = dict(kind='enum-literals', sdl=sdl, values=vals, model=dict(model, values=vals))
         err = C.build(sdl, 'query Q { e }\n', 'Q', 'q', attrs='normalization = "rust", ' if rust else '')
         if err:
